@@ -74,3 +74,162 @@ func (a *Value) Store(v any) {
 	vrt.AtomicPoint(unsafe.Pointer(a), true, "")
 	a.v = v
 }
+
+func AddUint32(p *uint32, d uint32) uint32 {
+	vrt.AtomicPoint(unsafe.Pointer(p), true, "")
+	*p += d
+	return *p
+}
+func LoadUint32(p *uint32) uint32 {
+	vrt.AtomicPoint(unsafe.Pointer(p), false, "")
+	return *p
+}
+func StoreUint32(p *uint32, v uint32) {
+	vrt.AtomicPoint(unsafe.Pointer(p), true, "")
+	*p = v
+}
+func SwapUint64(p *uint64, v uint64) uint64 {
+	vrt.AtomicPoint(unsafe.Pointer(p), true, "")
+	o := *p
+	*p = v
+	return o
+}
+func SwapInt64(p *int64, v int64) int64 {
+	vrt.AtomicPoint(unsafe.Pointer(p), true, "")
+	o := *p
+	*p = v
+	return o
+}
+func CompareAndSwapUint64(p *uint64, old, nw uint64) bool {
+	vrt.AtomicPoint(unsafe.Pointer(p), true, "")
+	if *p == old {
+		*p = nw
+		return true
+	}
+	return false
+}
+func CompareAndSwapInt64(p *int64, old, nw int64) bool {
+	vrt.AtomicPoint(unsafe.Pointer(p), true, "")
+	if *p == old {
+		*p = nw
+		return true
+	}
+	return false
+}
+func CompareAndSwapUint32(p *uint32, old, nw uint32) bool {
+	vrt.AtomicPoint(unsafe.Pointer(p), true, "")
+	if *p == old {
+		*p = nw
+		return true
+	}
+	return false
+}
+
+type number interface {
+	~int32 | ~int64 | ~uint32 | ~uint64 | ~uintptr
+}
+
+type num[T number] struct{ v T }
+
+func (a *num[T]) Load() T {
+	vrt.AtomicPoint(unsafe.Pointer(a), false, "")
+	return a.v
+}
+func (a *num[T]) Store(v T) {
+	vrt.AtomicPoint(unsafe.Pointer(a), true, "")
+	a.v = v
+}
+func (a *num[T]) Add(d T) T {
+	vrt.AtomicPoint(unsafe.Pointer(a), true, "")
+	a.v += d
+	return a.v
+}
+func (a *num[T]) Swap(v T) T {
+	vrt.AtomicPoint(unsafe.Pointer(a), true, "")
+	o := a.v
+	a.v = v
+	return o
+}
+func (a *num[T]) CompareAndSwap(old, nw T) bool {
+	vrt.AtomicPoint(unsafe.Pointer(a), true, "")
+	if a.v == old {
+		a.v = nw
+		return true
+	}
+	return false
+}
+
+type (
+	Int32   struct{ num[int32] }
+	Int64   struct{ num[int64] }
+	Uint32  struct{ num[uint32] }
+	Uint64  struct{ num[uint64] }
+	Uintptr struct{ num[uintptr] }
+)
+
+// Bool replaces atomic.Bool.
+type Bool struct{ v bool }
+
+func (a *Bool) Load() bool {
+	vrt.AtomicPoint(unsafe.Pointer(a), false, "")
+	return a.v
+}
+func (a *Bool) Store(v bool) {
+	vrt.AtomicPoint(unsafe.Pointer(a), true, "")
+	a.v = v
+}
+func (a *Bool) Swap(v bool) bool {
+	vrt.AtomicPoint(unsafe.Pointer(a), true, "")
+	o := a.v
+	a.v = v
+	return o
+}
+func (a *Bool) CompareAndSwap(old, nw bool) bool {
+	vrt.AtomicPoint(unsafe.Pointer(a), true, "")
+	if a.v == old {
+		a.v = nw
+		return true
+	}
+	return false
+}
+
+// Pointer replaces atomic.Pointer.
+type Pointer[T any] struct{ p *T }
+
+func (a *Pointer[T]) Load() *T {
+	vrt.AtomicPoint(unsafe.Pointer(a), false, "")
+	return a.p
+}
+func (a *Pointer[T]) Store(p *T) {
+	vrt.AtomicPoint(unsafe.Pointer(a), true, "")
+	a.p = p
+}
+func (a *Pointer[T]) Swap(p *T) *T {
+	vrt.AtomicPoint(unsafe.Pointer(a), true, "")
+	o := a.p
+	a.p = p
+	return o
+}
+func (a *Pointer[T]) CompareAndSwap(old, nw *T) bool {
+	vrt.AtomicPoint(unsafe.Pointer(a), true, "")
+	if a.p == old {
+		a.p = nw
+		return true
+	}
+	return false
+}
+
+func (a *Value) Swap(v any) any {
+	vrt.AtomicPoint(unsafe.Pointer(a), true, "")
+	o := a.v
+	a.v = v
+	return o
+}
+func (a *Value) CompareAndSwap(old, nw any) bool {
+	vrt.AtomicPoint(unsafe.Pointer(a), true, "")
+	if a.v == old {
+		a.v = nw
+		return true
+	}
+	return false
+}
